@@ -26,6 +26,7 @@ type Replay struct {
 	AssertID string            `json:"assert_id"`
 	Inputs   []ReplayInput     `json:"inputs"`
 	Observes map[string]string `json:"observes"`
+	File     string            `json:"-"`
 }
 
 type AssumeFalse struct{}
@@ -40,6 +41,7 @@ type State struct {
 	Findings []string
 	Diverged string
 	thorough bool
+	child    map[string]string
 }
 
 var cur *State
@@ -60,7 +62,7 @@ func LoadReplay(path string) (*Replay, error) {
 	if err != nil {
 		return nil, err
 	}
-	r := &Replay{}
+	r := &Replay{File: path}
 	return r, json.Unmarshal(b, r)
 }
 
@@ -151,6 +153,21 @@ func HostCall(name, arg string) string { return HostFuncs[name](arg) }
 // HostCallInt is HostCall(name, prefix+itoa(i)); under the engine i may be symbolic.
 func HostCallInt(name, prefix string, i int64) string {
 	return HostFuncs[name](prefix + strconv.FormatInt(i, 10))
+}
+
+var hostCodes = map[string]int64{}
+
+// HostCallIntCode returns an integer that identifies HostCallInt's result: equal
+// results have equal codes (the numbers themselves mean nothing and differ
+// between the engine and a native run: compare them, never observe them).
+func HostCallIntCode(name, prefix string, i int64) int64 {
+	v := name + "\x00" + HostCallInt(name, prefix, i)
+	c, ok := hostCodes[v]
+	if !ok {
+		c = int64(len(hostCodes))
+		hostCodes[v] = c
+	}
+	return c
 }
 
 // Clock helpers used by redirected call sites.
